@@ -105,7 +105,7 @@ def parseTrace (s : String) : Option (Outcome × List Event) :=
 def firstReject (data : Text) : Spec.St → List Event → Nat → Option (Nat × Event)
   | _, [], _ => none
   | s, e :: es, i =>
-    match Spec.stepEvent data s e with
+    match Spec.stepEvent data true s e with
     | none => some (i, e)
     | some s' => firstReject data s' es (i + 1)
 
@@ -129,6 +129,8 @@ def handle (args : List String) : Option String :=
       | _, _, _ => "bad-case"
     let v := verdict data goTrace
     some <| impl ++ "\t" ++ v ++ "\t" ++ (if v = "pass" then "-" else "unlisted")
+  -- self-test of the oracle: the Spec checker on a hand-written (possibly tampered) trace; no Impl column
+  | ["retry.selftest", d, goTrace] => some <| "-\t" ++ verdict (unhexS d) goTrace ++ "\t-"
   -- end-to-end steps through FetchPackage / fetchRepositoryIndex: the verdict is computed by the harness
   | ["retry.e2e", _] => some "-\t-\tunlisted"
   | _ => none
